@@ -57,6 +57,10 @@ P('C16','gate dominance on the interceptor, writer/reader agreement of the conte
   "The only check of gRPC proxying (no test exists). Decides structurally: handler only with a target and no lookup error, NotFound/Internal on the failure edges, context key and asserted type agree between interceptor and director, outgoing metadata is a copy of the incoming metadata of the same call, connection from the pool for the chosen target, server options wire codec/transparent handler/interceptor/size limits (not swapped), lookup by full method + single dsthost + configured strategy/matcher on one table snapshot, pool map only under its lock with canonical keys, insert re-checked under the write lock, cleanup paced with the lock released and vanished targets dropped. Message/metadata/status transparency is delegated to grpc-proxy/grpc-go and not decided.",
   COMMON_NOTE)
 
+P('C01','value-flow chain rule with role discovery of the filter stages, NEG reachability within one loop iteration against recognised exclusion conditions, control-dependence of counters, loop pacing incl. wait-index advance, writer/reader key-shape agreement, ordering of buffer writes',
+  "Decides the structure of the pipeline from the registry reply to the installed text on every path: the sent text is builder(healthFilter(tagFilter(reply))) of the same iteration and nothing else is carried across snapshots; each Consul query blocks on an advancing index and its error edge sleeps; in the health filter the append is unreachable, within an iteration, from every exclusion edge (agent down, node/service maintenance on the same node), is dominated by isServiceCheck and passing >= 1, and no edge into it carries strict && total != passing; counters are control-dependent on same node/service id (and accepted status); the tag filter keeps node and maintenance checks; written and looked-up instance keys have the same shape; command lists are sorted before joining; the updater resets the buffer and writes service before manual text, both only from the registry channels. Consul's semantics, quiescence and the if-and-only-if over histories are not decided.",
+  COMMON_NOTE)
+
 checks=[]; na=[]
 for p in props:
     id=p['id']
